@@ -14,7 +14,7 @@ import (
 func init() {
 	Registry["C08"] = C08
 	Metas["C08"] = Meta{
-		Explanation: "Decides the counter-pairing clauses of C08 on every path: (S1) in the compute core, under each mode, a path that clears a slot performs exactly one counter update of -1, a path that fills an empty slot or links a new bucket exactly one of +1, a path that replaces a value or changes nothing performs none; the delta is a constant and the update goes, atomically, to the very table the attempt validated and modified; (S2) the resize copy returns a count incremented once per appended entry and nowhere else, resize adds it once per source bucket to the new, still unpublished table, and the clear hint copies nothing into a fresh zero-count table; (S3) Size sums every stripe of the currently published table and Count is the map's Size; (S4) no counter update exists outside the functions analysed by S1/S2; (S5) a Clear request cannot be dropped (restated from C03/C04.P7), so Count is 0 right after Clear. NOT decided: exactness over concurrent histories (it follows from S1+S2 together with the protocol shape of C03/C04, whose structural parts are decided there).",
+		Explanation: "Decides the counter-pairing clauses of C08 on every path: (S1) in the compute core, under each mode, a path that clears a slot performs exactly one counter update of -1, a path that fills an empty slot or links a new bucket exactly one of +1, a path that replaces a value or changes nothing performs none; the delta is a constant and the update goes, atomically, to the very table the attempt validated and modified; (S2) the resize copy returns a count incremented once per appended entry and nowhere else, resize adds it once per source bucket to the new, still unpublished table, and the clear hint copies nothing into a fresh zero-count table; (S3) Size sums every stripe of the currently published table and every return of Count hands out the Size the underlying map reported to that very call (not a remembered or adjusted number); (S4) no counter update exists outside the functions analysed by S1/S2; (S5) a Clear request cannot be dropped (restated from C03/C04.P7), so Count is 0 right after Clear. NOT decided: exactness over concurrent histories (it follows from S1+S2 together with the protocol shape of C03/C04, whose structural parts are decided there).",
 		Rule:        "one obligation per (rule, specialisation, exit | block | call site); non-trivial = decided from explored product-graph paths or resolved call sites",
 		Assumptions: []string{"C03/C04 protocol shape (writers validated on the table they modify; copy under the bucket lock)", "sync/atomic.AddInt64 is atomic"},
 	}
@@ -341,17 +341,20 @@ func c08S3(r *Run, rep *core.Report) {
 			continue
 		}
 		rep.Fn(fn(f))
-		ok := false
+		// every return hands out the Size the underlying map reported to this very call (a remembered or adjusted number
+		// is not the map's count: it misses the removals and insertions that do not go through whoever maintains it)
+		nRet, nSize := 0, 0
 		core.Instrs(f, func(in ssa.Instruction) {
 			if ret, isRet := in.(*ssa.Return); isRet && len(ret.Results) == 1 {
-				if c, isCall := ret.Results[0].(*ssa.Call); isCall {
+				nRet++
+				if c, isCall := core.StripConv(ret.Results[0]).(*ssa.Call); isCall {
 					if m, _, isItems := r.M.ItemsInvoke(c); isItems && m == "Size" {
-						ok = true
+						nSize++
 					}
 				}
 			}
 		})
-		rep.Check(ok, "C08.S3", fn(f), r.P.Pos(f.Pos()), "Count is the underlying map's Size", "Count does not return the underlying map's Size")
+		rep.Check(nRet > 0 && nSize == nRet, "C08.S3", fn(f), r.P.Pos(f.Pos()), "Count is the underlying map's Size", fmt.Sprintf("Count does not return the underlying map's Size on every path (%d of %d returns do): a number kept elsewhere drifts from what the map holds", nSize, nRet))
 	}
 }
 
